@@ -8,7 +8,7 @@ from .c07 import all_idents, DICT, RUST_KEYWORDS
 
 IDENTS = ['Red', 'HTTPServer', 'Foo2Bar', 'A1', 'Hello2You', 'XMLHttpRequest', 'IOError', 'Utf8', 'B2B', 'Plain', 'Mixed_Case_9', 'V2Beta3', 'Ab_cD', 'Task',
           'Kind9', 'x9', 'Foo_1', 'R2D2', 'Abc123Def', 'NaN', '_2D', '_1', '_3dPoint']
-TUPLES = [[], ['u8'], ['u8', 'String'], ['bool', 'i32', 'String'], ['i64', 'u16'], ['String', 'OptU8', 'u32']]
+TUPLES = [[], ['u8'], ['u8', 'String'], ['bool', 'i32', 'String'], ['Host', 'u16'], ['String', 'OptU8', 'u32']]
 OTHER_KINDS = [('unit', []), ('named', ['i32']), ('named', ['u8', 'String']), ('named', [])]
 
 
